@@ -179,7 +179,11 @@ func (b *bench) applyAndCheck(pb *proofBook, op c29Op) c29Result {
 	}
 	switch op.Kind {
 	case "instruction":
-		resp, err := b.srv.AcmeInstruction(caller.ctx(), &protocol.InstructionRequest{Hostname: raw, Proof: proof})
+		var resp *protocol.InstructionResponse
+		err := safely(func() (e error) {
+			resp, e = b.srv.AcmeInstruction(caller.ctx(), &protocol.InstructionRequest{Hostname: raw, Proof: proof})
+			return
+		})
 		after := b.kv.snapshot()
 		if !sameSnap(before, after) || len(b.kv.log) > 0 {
 			bad("instruction-mutates-store", "AcmeInstruction changed the store: %s %v", snapDiff(before, after), b.kv.log)
@@ -204,7 +208,10 @@ func (b *bench) applyAndCheck(pb *proofBook, op c29Op) c29Result {
 		}
 		return res
 	case "validate":
-		_, err := b.srv.AcmeValidate(caller.ctx(), &protocol.ValidateRequest{Hostname: raw, Proof: proof})
+		err := safely(func() (e error) {
+			_, e = b.srv.AcmeValidate(caller.ctx(), &protocol.ValidateRequest{Hostname: raw, Proof: proof})
+			return
+		})
 		after := b.kv.snapshot()
 		ob, oa := owners(before), owners(after)
 		// invariant over every transition: an existing binding never changes owner or disappears
@@ -519,6 +526,7 @@ func c29(c *report.Check, thorough bool, only string) {
 	c.Set("matrix_cases", evals)
 	c.Set("matrix_validations_succeeded", bound)
 	c.Set("matrix_permitted_but_refused", refusedAlthoughPermitted)
+	c.Set("handler_panics", int(handlerPanics.Load()))
 	c.Set("histories", nseq)
 	c.Set("history_depth", depth)
 	c.Set("history_alphabet", len(alpha))
